@@ -61,6 +61,24 @@ pub fn long_text(n: usize) -> String {
     s
 }
 
+pub fn person_for(n: usize) -> String {
+    let names = ["Alice", "Bob", "Carol", "Dave", "Erin", "Frank", "Grace", "Heidi"];
+    let mut s = names[n % names.len()].to_string();
+    for _ in 0..(n / names.len()) {
+        s.push('a');
+    }
+    s
+}
+
+pub fn company_for(n: usize) -> String {
+    let w = word_for(n);
+    let mut c = w.chars();
+    match c.next() {
+        Some(f) => f.to_uppercase().collect::<String>() + c.as_str(),
+        None => w,
+    }
+}
+
 pub fn embedding_for(n: usize) -> Vec<f32> {
     vec![n as f32 + 1.0, -(n as f32) * 0.5 - 1.0]
 }
@@ -94,6 +112,8 @@ pub struct MFrame {
     pub word: Option<String>,
     pub title: Option<String>,
     pub touched_since_commit: bool,
+    /// put kind that created the frame ("" for updates / chunks)
+    pub kind: String,
 }
 
 #[derive(Default, Clone)]
@@ -103,6 +123,11 @@ pub struct Model {
     pub committed: usize,
     pub next_doc: usize,
     pub versions: usize,
+    pub ticket_seq: i64,
+    /// capacity granted by the last accepted ticket (absolute end offset of the payload region)
+    pub capacity: Option<u64>,
+    /// stored bytes of acknowledged puts that are not materialised yet
+    pub pending_stored: u64,
 }
 
 impl Model {
@@ -111,6 +136,7 @@ impl Model {
     }
     pub fn materialise(&mut self) {
         self.committed = self.frames.len();
+        self.pending_stored = 0;
         for f in self.frames.iter_mut() {
             f.touched_since_commit = false;
         }
@@ -181,7 +207,10 @@ impl Driver {
     pub fn new(dir: PathBuf, cfg: Cfg) -> Result<Driver, String> {
         let path = dir.join("m.mv2");
         let mem = Memvid::create(&path).map_err(|e| format!("create: {e}"))?;
-        Ok(Driver { dir, path, mem: Some(mem), model: Model::default(), cfg, viol: Vec::new(), outcomes: Vec::new(), step: 0, first_seen: Default::default(), vacuumed: false })
+        let mut model = Model::default();
+        // a fresh memory starts with the ticket sequence its TOC was created with
+        model.ticket_seq = mem.current_ticket().seq_no;
+        Ok(Driver { dir, path, mem: Some(mem), model, cfg, viol: Vec::new(), outcomes: Vec::new(), step: 0, first_seen: Default::default(), vacuumed: false })
     }
 
     pub fn violation(&mut self, sig: &str, detail: String) {
@@ -219,6 +248,14 @@ impl Driver {
             "E" => {
                 embedding = Some(embedding_for(n));
                 long_text(n).into_bytes()
+            }
+            "s" | "S" => {
+                // a sentence the rules engine turns into a card: "<Name> works at <Company>."
+                if kind == "S" {
+                    opts.instant_index = true;
+                    opts.enable_embedding = true;
+                }
+                format!("{} works at {}.", person_for(n), company_for(n)).into_bytes()
             }
             "n" => {
                 opts.auto_tag = false;
@@ -263,17 +300,18 @@ impl Driver {
                     Some(cs) if !cs.is_empty() => {
                         let canonical: Vec<u8> = cs.concat().into_bytes();
                         let chunk_ids: Vec<u64> = (0..cs.len() as u64).map(|k| id + 1 + k).collect();
-                        self.model.frames.push(MFrame { id, uri: uri.clone(), role: FrameRole::Document, status: MStatus::Active, parent: None, supersedes: None, superseded_by: None, timestamp: ts, canonical, embedding: embedding.clone(), doc_no: n, chunks: chunk_ids, word: None, title: None, touched_since_commit: false });
+                        self.model.frames.push(MFrame { id, uri: uri.clone(), role: FrameRole::Document, status: MStatus::Active, parent: None, supersedes: None, superseded_by: None, timestamp: ts, canonical, embedding: embedding.clone(), doc_no: n, chunks: chunk_ids, word: None, title: None, touched_since_commit: false, kind: String::new() });
                         for (k, c) in cs.iter().enumerate() {
                             let cid = id + 1 + k as u64;
                             let emb = chunk_embeddings.as_ref().and_then(|ce| ce.get(k).cloned());
-                            self.model.frames.push(MFrame { id: cid, uri: format!("{uri}#page-{}", k + 1), role: FrameRole::DocumentChunk, status: MStatus::Active, parent: Some(id), supersedes: None, superseded_by: None, timestamp: ts, canonical: c.clone().into_bytes(), embedding: emb, doc_no: n, chunks: vec![], word: None, title: None, touched_since_commit: false });
+                            self.model.frames.push(MFrame { id: cid, uri: format!("{uri}#page-{}", k + 1), role: FrameRole::DocumentChunk, status: MStatus::Active, parent: Some(id), supersedes: None, superseded_by: None, timestamp: ts, canonical: c.clone().into_bytes(), embedding: emb, doc_no: n, chunks: vec![], word: None, title: None, touched_since_commit: false, kind: String::new() });
                         }
                     }
                     _ => {
-                        self.model.frames.push(MFrame { id, uri, role: FrameRole::Document, status: MStatus::Active, parent: None, supersedes: None, superseded_by: None, timestamp: ts, canonical: payload.clone(), embedding, doc_no: n, chunks: vec![], word, title: None, touched_since_commit: false });
+                        self.model.frames.push(MFrame { id, uri, role: FrameRole::Document, status: MStatus::Active, parent: None, supersedes: None, superseded_by: None, timestamp: ts, canonical: payload.clone(), embedding, doc_no: n, chunks: vec![], word, title: None, touched_since_commit: false, kind: String::new() });
                     }
                 }
+                self.model.frames[id as usize].kind = kind.to_string();
             }
         }
     }
@@ -323,7 +361,7 @@ impl Driver {
                 let canonical = payload.clone().unwrap_or_else(|| old.canonical.clone());
                 let emb = embedding.or_else(|| old.embedding.clone());
                 let title = if how == "meta" { opts.title.clone() } else { old.title.clone() };
-                self.model.frames.push(MFrame { id, uri: old.uri.clone(), role: FrameRole::Document, status: MStatus::Active, parent: None, supersedes: Some(target), superseded_by: None, timestamp: old.timestamp, canonical, embedding: emb, doc_no: old.doc_no, chunks: vec![], word: new_word, title, touched_since_commit: true });
+                self.model.frames.push(MFrame { id, uri: old.uri.clone(), role: FrameRole::Document, status: MStatus::Active, parent: None, supersedes: Some(target), superseded_by: None, timestamp: old.timestamp, canonical, embedding: emb, doc_no: old.doc_no, chunks: vec![], word: new_word, title, touched_since_commit: true, kind: String::new() });
                 let o = &mut self.model.frames[target as usize];
                 o.status = MStatus::Superseded;
                 o.superseded_by = Some(id);
@@ -374,6 +412,7 @@ impl Driver {
                 self.outcomes.push("commit:ok".into());
                 self.model.materialise();
                 self.quiescent("after commit");
+                self.check_capacity("after commit");
             }
         }
     }
@@ -409,6 +448,12 @@ impl Driver {
                 self.mem = Some(m);
                 self.model.materialise();
                 self.quiescent(&format!("after {how}+open"));
+                self.check_capacity(&format!("after {how}+open"));
+                // tickets persist across reopen
+                let t = self.mem.as_ref().map(|m| m.current_ticket().seq_no).unwrap_or(0);
+                if t != self.model.ticket_seq {
+                    self.violation("ticket-seq-not-persisted", format!("after {how}+open current ticket seq {t}, reference {}", self.model.ticket_seq));
+                }
             }
         }
     }
@@ -503,11 +548,190 @@ impl Driver {
         }
     }
 
+    /// C26: every card, enrichment record and queue entry names the frame it came from.
+    pub fn check_derived(&mut self, when: &str, drain_queue: bool) {
+        let model = self.model.clone();
+        let Some(mem) = self.mem.as_mut() else { return };
+        let mut bad: Vec<(String, String)> = Vec::new();
+        let cards: Vec<memvid_core::MemoryCard> = mem.memories().cards().to_vec();
+        for c in &cards {
+            let id = c.source_frame_id;
+            match mem.frame_by_id(id) {
+                Err(_) => bad.push(("card-names-missing-frame".into(), format!("{when}: card {}/{}={} names frame {id}, which does not exist", c.entity, c.slot, c.value))),
+                Ok(f) => {
+                    if c.source_uri.is_some() && f.uri != c.source_uri {
+                        bad.push(("card-names-wrong-frame".into(), format!("{when}: card {}/{}={} (from {:?}) names frame {id}, whose uri is {:?}", c.entity, c.slot, c.value, c.source_uri, f.uri)));
+                    }
+                    let text = mem.frame_text_by_id(id).unwrap_or_default();
+                    if !text.contains(&c.value) {
+                        bad.push(("card-value-not-in-frame-text".into(), format!("{when}: card value {:?} not in text of frame {id}: {:?}", c.value, text.chars().take(60).collect::<String>())));
+                    }
+                }
+            }
+        }
+        // a put records an enrichment exactly when it extracted cards, so every recorded frame must
+        // be the source of some card (and a Document frame acknowledged by a put or update)
+        let sources: std::collections::BTreeSet<u64> = cards.iter().map(|c| c.source_frame_id).collect();
+        for id in mem.memories().enrichment_manifest().enriched_frames() {
+            let is_doc = model.frames.get(id as usize).map_or(false, |f| f.role == FrameRole::Document);
+            if !sources.contains(&id) || !is_doc {
+                bad.push(("enrichment-record-names-wrong-frame".into(), format!("{when}: enrichment record for frame {id}, but cards were extracted from frames {sources:?}")));
+            }
+        }
+        if let Some(t) = mem.next_enrichment_task() {
+            let ok = model.frames.get(t.frame_id as usize).map_or(false, |f| f.kind == "S");
+            if !ok {
+                bad.push(("enrichment-queue-names-wrong-frame".into(), format!("{when}: enrichment queue head names frame {}, which is not a frame queued for enrichment", t.frame_id)));
+            }
+        }
+        if drain_queue {
+            let mut guard_n = 0;
+            while let Some(t) = mem.next_enrichment_task() {
+                let ok = model.frames.get(t.frame_id as usize).map_or(false, |f| f.kind == "S");
+                if !ok {
+                    bad.push(("enrichment-queue-names-wrong-frame".into(), format!("{when}: enrichment queue entry names frame {}, which is not a frame queued for enrichment", t.frame_id)));
+                }
+                mem.complete_enrichment_task(t.frame_id);
+                guard_n += 1;
+                if guard_n > 1000 {
+                    break;
+                }
+            }
+        }
+        let ncards = cards.len();
+        self.outcomes.push(format!("cards:{}", ncards.min(3)));
+        for (s, d) in bad {
+            self.violation(&s, d);
+        }
+    }
+
     pub fn check_listing(&mut self, when: &str) {
         let l = list_dir(&self.dir);
         if l != vec!["m.mv2".to_string()] {
             self.violation("extra-files-in-directory", format!("{when}: directory holds {l:?}"));
         }
+    }
+
+    /// End of the payload region as the public API shows it (max frame payload end, or WAL end).
+    pub fn payload_end(&mut self) -> u64 {
+        let Some(mem) = self.mem.as_mut() else { return 0 };
+        let wal_end = 4096 + mem.stats().map(|s| s.wal_bytes).unwrap_or(65536);
+        let mut end = wal_end;
+        for id in 0..mem.frame_count() as u64 {
+            if let Ok(f) = mem.frame_by_id(id) {
+                if f.payload_length > 0 {
+                    end = end.max(f.payload_offset + f.payload_length);
+                }
+            }
+        }
+        end
+    }
+
+    /// apply_ticket with the next sequence number and capacity = payload end + delta
+    pub fn ticket(&mut self, seq: i64, delta: u64) {
+        let cap = self.payload_end() + delta;
+        let Some(mem) = self.mem.as_mut() else { die("ticket without handle") };
+        #[allow(deprecated)]
+        let r = guard(|| mem.apply_ticket(memvid_core::Ticket::new("verif", seq).capacity_bytes(cap)));
+        match r {
+            Err(p) => self.violation("panic:ticket", p),
+            Ok(Ok(())) => {
+                self.outcomes.push("ticket:ok".into());
+                if seq <= self.model.ticket_seq {
+                    self.violation("stale-ticket-accepted", format!("ticket seq {seq} accepted after {}", self.model.ticket_seq));
+                }
+                self.model.ticket_seq = seq;
+                self.model.capacity = Some(cap);
+            }
+            Ok(Err(e)) => {
+                self.outcomes.push("ticket:err".into());
+                if seq > self.model.ticket_seq {
+                    self.violation("fresh-ticket-rejected", format!("ticket seq {seq} rejected after {}: {e}", self.model.ticket_seq));
+                }
+            }
+        }
+    }
+
+    /// put of an incompressible binary of `size` bytes under the capacity model (C24)
+    pub fn put_sized(&mut self, size: usize) {
+        let n = self.model.next_doc;
+        let uri = format!("mv2://d{n}");
+        let ts = 1000 + n as i64;
+        let opts = self.opts(&uri, ts);
+        let payload = prng_bytes(77 + n as u64, size);
+        let committed_end = self.payload_end();
+        let Some(mem) = self.mem.as_mut() else { die("put without handle") };
+        let res = guard(|| mem.put_bytes_with_options(&payload, opts.clone()));
+        let allowed = match self.model.capacity {
+            None => true,
+            Some(cap) => committed_end + self.model.pending_stored + size as u64 <= cap,
+        };
+        match res {
+            Err(p) => self.violation("panic:put", p),
+            Ok(Ok(_)) => {
+                self.outcomes.push("putn:ok".into());
+                if !allowed {
+                    self.violation("capacity:put-accepted-beyond-limit", format!("put of {size} bytes accepted: committed payload end {committed_end} + pending {} + {size} > capacity {:?}", self.model.pending_stored, self.model.capacity));
+                }
+                self.model.next_doc += 1;
+                self.model.pending_stored += size as u64;
+                let id = self.model.frames.len() as u64;
+                self.model.frames.push(MFrame { id, uri, role: FrameRole::Document, status: MStatus::Active, parent: None, supersedes: None, superseded_by: None, timestamp: ts, canonical: payload, embedding: None, doc_no: n, chunks: vec![], word: None, title: None, touched_since_commit: false, kind: String::new() });
+            }
+            Ok(Err(memvid_core::MemvidError::CapacityExceeded { .. })) => {
+                // The statement does not require that a put below the limit succeeds (new payloads are
+                // placed after index segments, so the implementation may be conservative); only count it.
+                self.outcomes.push(if allowed { "putn:capacity-exceeded-conservative".into() } else { "putn:capacity-exceeded".into() });
+                let now = self.mem.as_ref().map(|m| m.next_frame_id());
+                if now != Some(self.model.frames.len() as u64) {
+                    self.violation("capacity:rejected-put-changed-state", format!("next_frame_id {now:?} after a rejected put, reference {}", self.model.frames.len()));
+                }
+            }
+            Ok(Err(e)) => self.violation("put-rejected", format!("put of {size} bytes returned Err: {e}")),
+        }
+    }
+
+    /// After a commit: no payload may end beyond the granted capacity.
+    pub fn check_capacity(&mut self, when: &str) {
+        if let Some(cap) = self.model.capacity {
+            let end = self.payload_end();
+            if end > cap {
+                self.violation("capacity:committed-payload-exceeds-limit", format!("{when}: payload region ends at {end}, capacity {cap}"));
+            }
+        }
+    }
+
+    /// Calls that must fail and leave everything unchanged.
+    pub fn bad(&mut self, what: &str) -> bool {
+        let before = self.mem.as_ref().map(|m| (m.frame_count(), m.next_frame_id()));
+        let Some(mem) = self.mem.as_mut() else { die("bad op without handle") };
+        let r: Result<Result<(), memvid_core::MemvidError>, String> = match what {
+            "upd" => guard(|| mem.update_frame(9_999, Some(b"x".to_vec()), PutOptions::default(), None).map(|_| ())),
+            "del" => guard(|| mem.delete_frame(9_999).map(|_| ())),
+            "dim" => {
+                if !self.model.frames.iter().any(|f| f.embedding.is_some() && (f.id as usize) < self.model.committed) {
+                    return false;
+                }
+                guard(|| mem.put_with_embedding(b"wrong dimension", vec![1.0, 2.0, 3.0]).map(|_| ()))
+            }
+            "tick" => {
+                let seq = self.model.ticket_seq;
+                #[allow(deprecated)]
+                let r = guard(|| mem.apply_ticket(memvid_core::Ticket::new("verif", seq)));
+                r
+            }
+            other => die(&format!("unknown bad op {other}")),
+        };
+        match r {
+            Err(p) => self.violation("panic:failing-call", format!("{what}: {p}")),
+            Ok(Ok(())) => self.violation("invalid-call-accepted", format!("{what} returned Ok")),
+            Ok(Err(_)) => self.outcomes.push(format!("bad:{what}:err")),
+        }
+        let after = self.mem.as_ref().map(|m| (m.frame_count(), m.next_frame_id()));
+        if before != after {
+            self.violation("failed-call-changed-state", format!("{what}: (frame_count, next_frame_id) {before:?} -> {after:?}"));
+        }
+        true
     }
 
     pub fn timeline_ids(&mut self) -> Result<Vec<(i64, u64)>, String> {
@@ -542,6 +766,16 @@ pub fn exec_op(d: &mut Driver, op: &str) -> bool {
             d.reopen("abandon");
             true
         }
+        "tick" => {
+            let seq = if parts[1] == "+" { d.model.ticket_seq + 1 } else { parts[1].parse().unwrap_or(1) };
+            d.ticket(seq, parts[2].parse().unwrap_or(0));
+            true
+        }
+        "putn" => {
+            d.put_sized(parts[1].parse().unwrap_or(1));
+            true
+        }
+        "bad" => d.bad(parts[1]),
         "vacuum" => {
             let Some(mem) = d.mem.as_mut() else { die("vacuum without handle") };
             match guard(|| mem.vacuum()) {
@@ -587,7 +821,67 @@ pub fn worker() {
     worker_loop(|case| run_case(&scratch, case));
 }
 
+/// C19: a forbidden sidecar next to the memory makes create/open/open_read_only/doctor refuse.
+fn run_sidecar_case(scratch: &Scratch, case: &Value) -> Value {
+    let side = case["sidecar"].as_str().unwrap_or("-wal");
+    let entry = case["entry"].as_str().unwrap_or("open");
+    let dir = scratch.dir();
+    let path = dir.join("m.mv2");
+    let mut viol: Vec<Value> = Vec::new();
+    if entry != "create" {
+        match Memvid::create(&path) {
+            Ok(mut m) => {
+                let _ = m.put_bytes_with_options(b"sidecar test document", PutOptions::builder().timestamp(5).instant_index(false).build());
+                let _ = m.commit();
+            }
+            Err(e) => return json!({"engine_error": format!("create: {e}")}),
+        }
+    }
+    let side_name = if let Some(rest) = side.strip_prefix('.') { format!(".m.mv2.{rest}") } else { format!("m.mv2{side}") };
+    if std::fs::write(dir.join(&side_name), b"junk").is_err() {
+        return json!({"engine_error": "cannot write sidecar"});
+    }
+    let before = list_dir(&dir);
+    let before_bytes = std::fs::read(&path).ok().map(|b| sha256_hex(&b));
+    let r: Result<Result<(), memvid_core::MemvidError>, String> = match entry {
+        "create" => guard(|| Memvid::create(&path).map(|_| ())),
+        "open" => guard(|| Memvid::open(&path).map(|_| ())),
+        "open_ro" => guard(|| Memvid::open_read_only(&path).map(|_| ())),
+        "doctor" => guard(|| Memvid::doctor(&path, memvid_core::DoctorOptions::default()).map(|_| ())),
+        other => die(&format!("unknown entry {other}")),
+    };
+    let outcome = match r {
+        Err(p) => {
+            viol.push(json!({"sig": "panic:sidecar", "detail": format!("{entry} with sidecar {side_name}: {p}"), "step": 0}));
+            "panic"
+        }
+        Ok(Ok(())) => {
+            viol.push(json!({"sig": "sidecar-not-refused", "detail": format!("{entry} succeeded although {side_name} exists"), "step": 0}));
+            "accepted"
+        }
+        Ok(Err(memvid_core::MemvidError::AuxiliaryFileDetected { .. })) => "refused",
+        Ok(Err(e)) => {
+            viol.push(json!({"sig": "sidecar-wrong-error", "detail": format!("{entry} with sidecar {side_name}: {e}"), "step": 0}));
+            "other-error"
+        }
+    };
+    let after = list_dir(&dir);
+    if after != before {
+        viol.push(json!({"sig": "sidecar-refusal-changed-directory", "detail": format!("{entry}: {before:?} -> {after:?}"), "step": 0}));
+    }
+    let after_bytes = std::fs::read(&path).ok().map(|b| sha256_hex(&b));
+    if entry != "create" && after_bytes != before_bytes {
+        viol.push(json!({"sig": "sidecar-refusal-changed-file", "detail": format!("{entry} with {side_name} modified the memory file"), "step": 0}));
+    }
+    close_fds_under(&dir);
+    rm_dir(&dir);
+    json!({"viol": viol, "outcomes": [format!("sidecar:{outcome}")], "redundant": false, "digest": format!("{:016x}", h64(&(side, entry))), "frames": 1})
+}
+
 pub fn run_case(scratch: &Scratch, case: &Value) -> Value {
+    if case.get("sidecar").is_some() {
+        return run_sidecar_case(scratch, case);
+    }
     let prop = case["prop"].as_str().unwrap_or("C01").to_string();
     let ops: Vec<String> = case["ops"].as_array().map(|a| a.iter().filter_map(|x| x.as_str().map(String::from)).collect()).unwrap_or_default();
     let prefix: Vec<String> = case["prefix"].as_array().map(|a| a.iter().filter_map(|x| x.as_str().map(String::from)).collect()).unwrap_or_default();
@@ -605,6 +899,9 @@ pub fn run_case(scratch: &Scratch, case: &Value) -> Value {
             break;
         }
         d.between();
+        if prop == "C26" && (op == "commit" || op == "reopen" || op == "abandon") {
+            d.check_derived(&format!("after {op}"), false);
+        }
         if prop == "C19" {
             d.check_listing(&format!("after {op}"));
         }
@@ -619,6 +916,9 @@ pub fn run_case(scratch: &Scratch, case: &Value) -> Value {
         d.reopen("drop");
         if prop == "C19" {
             d.check_listing("after final close+open");
+        }
+        if prop == "C26" {
+            d.check_derived("after final close+open", true);
         }
     }
     let digest = {
